@@ -44,7 +44,14 @@ Inductive ekind :=
 | KStopCancel (r : nat)                              (* reactive.stop.cancel *)
 | KStopMark (r : nat) (hadcomp : bool).              (* reactive.stop.mark *)
 
+(** what the harness reads from the real objects at a quiescent point (by reflection on the pointers the hooks
+    handed over): a node's flags, edge sets and handlers; a rerunner's computation, stop flag, context, cache
+    entries and held per-key locks *)
+Record nobs := mk_nobs { o_inv : bool; o_rel : bool; o_out : list nat; o_ins : list nat; o_hinv : bool; o_hrel : bool }.
+Record robs := mk_robs { o_comp : option nat; o_stop : bool; o_cancel : bool; o_cache : list (nat * nat); o_held : list nat }.
+
 Inductive event :=
+| EDump (ns : list nobs) (rs : list robs)
 | ETask (gid : nat) (k : ekind)
 | EStrobe (sl ver : nat)
 | EInvalidate (sl ver fresh : nat)
@@ -90,6 +97,31 @@ Fixpoint val_insert (x : nat * nat) (l : list (nat * nat)) : list (nat * nat) :=
   end.
 Definition val_sort (l : list (nat * nat)) : list (nat * nat) := fold_right val_insert [] l.
 Definition val_meqb (a b : list (nat * nat)) : bool := val_eqb (val_sort a) (val_sort b).
+
+(** the real state against the model's.  [node.in] is set to nil when a node has been released (graph.go:137):
+    compared for unreleased nodes only, as a multiset. *)
+Fixpoint nat_insert (x : nat) (l : list nat) : list nat :=
+  match l with [] => [x] | h :: t => if Nat.leb x h then x :: l else h :: nat_insert x t end.
+Definition nat_sort (l : list nat) : list nat := fold_right nat_insert [] l.
+
+Definition node_obs_ok (x : node) (o : nobs) : bool :=
+  Bool.eqb (n_inv x) (o_inv o) && Bool.eqb (n_rel x) (o_rel o) && same_set (n_out x) (o_out o) &&
+  (n_rel x || list_nat_eqb (nat_sort (n_ins x)) (nat_sort (o_ins o))) &&
+  Bool.eqb (is_some (n_hinv x)) (o_hinv o) && Bool.eqb (is_some (n_hrel x)) (o_hrel o).
+
+Definition rr_obs_ok (x : rr) (o : robs) : bool :=
+  opt_nat_eqb (r_comp x) (o_comp o) && Bool.eqb (r_stop x) (o_stop o) && Bool.eqb (r_cancel x) (o_cancel o) &&
+  val_meqb (r_cache x) (o_cache o) && same_set (r_keys x) (o_held o) && negb (r_mu x) && negb (r_clock x).
+
+Fixpoint all2 {A B} (p : A -> B -> bool) (a : list A) (b : list B) : bool :=
+  match a, b with
+  | [], [] => true
+  | x :: s, y :: t => p x y && all2 p s t
+  | _, _ => false
+  end.
+
+Definition dump_ok (s : state) (ns : list nobs) (rs : list robs) : bool :=
+  all2 node_obs_ok (s_nodes s) ns && all2 rr_obs_ok (s_rrs s) rs.
 
 (** Does event kind [k] name the critical section frame [f] stands at?  If so, the label argument. *)
 Definition match_arg (f : frame) (k : ekind) : option nat :=
@@ -306,12 +338,14 @@ Definition no_self_hitb (s : state) : bool := negb (existsb (frame_self_hit s) (
 (** replay: [inl s] = accepted, final state; [inr (code, index)] =
     1 no task can be at that critical section; 2 the section is not enabled in the model;
     3 a recorded observable differs; 4 an environment event is not enabled or its observable differs;
-    7 a cache lookup is about to return the computation that performs it (hypothesis of the progress theorem) *)
+    7 a cache lookup is about to return the computation that performs it (hypothesis of the progress theorem);
+    8 the state read from the real graph / rerunners / caches at a quiescent point differs from the model's *)
 Fixpoint replay (s : state) (b : list (nat * nat)) (i : nat) (es : list event) : state + (nat * nat) :=
   match es with
   | [] => inl s
   | e :: t =>
       match e with
+      | EDump ns rs => if dump_ok s ns rs then replay s b (S i) t else inr (8, i)
       | ETask gid k =>
           match task_event s b gid k with
           | inl (Some (s1, b1)) => if no_self_hitb s1 then replay s1 b1 (S i) t else inr (7, i)
